@@ -43,7 +43,7 @@ Lemma read_proof :
       | Some v => Ret (RVal v)
       | None => if dead s sd then Raise EAssertion
                 else match tbl_lookup (view s sd) (i_id (get_inst s sd o)) with
-                     | Some r => Ret (RVal (nth c r None))
+                     | Some r => Ret (RVal (nth c (reloaded cfg (get_inst s sd o) r) None))
                      | None => Raise ENotFound
                      end
       end.
@@ -120,7 +120,7 @@ Lemma obsolete_proof :
     tobs s = true -> op_side s o = Some Txn -> o <> OBegin ->
     let s' := snd (step cfg s o) in
     tobs s' = true /\ committed s' = committed s /\ pending s' = pending s /\ log s' = [] /\
-    (needs_db s o = true -> fst (step cfg s o) = Raise EAssertion).
+    (needs_db cfg s o = true -> fst (step cfg s o) = Raise EAssertion).
 Proof.
   intros cfg ops o s Ht Hs Hb s'. destruct (obs_step cfg s o Ht Hs Hb) as (A & B & C & D).
   repeat split; auto. intros Hn. apply obs_needs_db; auto.
@@ -154,3 +154,172 @@ Lemma fresh_history_proof :
   forall (cfg : config) (ops : list op),
     hist_ok cfg init ops = true -> par_fresh (run cfg init ops) = true.
 Proof. intros cfg ops H. apply fresh_history. exact H. Qed.
+
+(* ------------------------------------------------------------------ a lazyUpdate class: assignments are queued *)
+Lemma lazy_set_proof :
+  forall (cfg : config) (ops : list op) (h : nat) (sd : side) (x c : nat) (v : val),
+    let s := run cfg init ops in
+    lazy cfg = true -> nth h (slots s) None = Some (sd, x) ->
+    let s' := snd (step cfg s (OSet h c v)) in
+    fst (step cfg s (OSet h c v)) = Ret RNone /\ log s' = [] /\ committed s' = committed s /\ pending s' = pending s /\
+    tobs s' = tobs s /\ slots s' = slots s /\ cn s' (other sd) = cn s (other sd) /\ cache (cn s' sd) = cache (cn s sd) /\
+    forall x', get_inst s' sd x' =
+               if Nat.eqb x' x && Nat.ltb x (length (heap (cn s sd)))
+               then i_with_pending (set_val c v (get_inst s sd x)) (set_nth c (Some v) (i_pending (get_inst s sd x)))
+               else get_inst s sd x'.
+Proof.
+  intros cfg ops h sd x c v s Hl Hh s'. unfold s', step. cbn [run_op].
+  unfold handle, bind, gets. cbv beta iota. cbn [slots with_log]. rewrite Hh. unfold ret at 1. cbv beta iota. cbn [fst snd].
+  unfold so_set, bind, gets. cbv beta iota. rewrite Hl. unfold upd_inst, modify, ret. cbv beta iota. cbn [fst snd].
+  split; [reflexivity|]. repeat (split; [destruct sd; reflexivity|]).
+  intros x'. change (get_inst (with_log s []) sd x) with (get_inst s sd x). change (heap (cn (with_log s []) sd)) with (heap (cn s sd)).
+  rewrite get_inst_with_heap.
+  destruct (Nat.eqb x' x) eqn:E; cbn [andb].
+  - apply Nat.eqb_eq in E. subst x'. destruct (Nat.ltb x (length (heap (cn s sd)))) eqn:L.
+    + apply Nat.ltb_lt in L. apply nth_set_nth_same. exact L.
+    + apply Nat.ltb_ge in L. rewrite set_nth_oob by exact L. reflexivity.
+  - apply Nat.eqb_neq in E. rewrite nth_set_nth_other by congruence. reflexivity.
+Qed.
+
+(* syncUpdate: nothing queued, nothing done; else ONE statement on the instance's connection: the row gets the queued values *)
+Lemma sync_update_proof :
+  forall (cfg : config) (ops : list op) (h : nat) (sd : side) (x : nat),
+    let s := run cfg init ops in
+    let i := get_inst s sd x in
+    nth h (slots s) None = Some (sd, x) ->
+    (dirty i = false -> step cfg s (OSyncUpdate h) = (Ret RNone, with_log s [])) /\
+    (dirty i = true -> fst (step cfg s (OSyncUpdate h)) = Ret RNone ->
+     let s' := snd (step cfg s (OSyncUpdate h)) in
+     view s' sd = tbl_update_cols (i_id i) (i_pending i) (view s sd) /\ length (log s') = 1%nat /\
+     dirty (get_inst s' sd x) = false /\ i_vals (get_inst s' sd x) = i_vals i).
+Proof.
+  intros cfg ops h sd x s i Hh. unfold step. cbn [run_op].
+  unfold handle, bind, gets, ret. cbv beta iota. cbn [slots with_log]. rewrite Hh. cbv beta iota. cbn [fst snd].
+  unfold so_sync_update, bind, gets, ret. cbv beta iota.
+  change (get_inst (with_log s []) sd x) with i.
+  split.
+  - intros Hd. rewrite Hd. reflexivity.
+  - intros Hd. rewrite Hd.
+    assert (Hin : (x < length (heap (cn s sd)))%nat).
+    { destruct (Nat.lt_ge_cases x (length (heap (cn s sd)))) as [L|L]; [exact L|].
+      exfalso. unfold i, get_inst in Hd. rewrite nth_overflow in Hd by exact L. discriminate. }
+    unfold db_update_cols, stmt_write. destruct sd.
+    + cbn [pending with_log]. destruct (pending s) eqn:Ep; [cbn; discriminate|].
+      match goal with |- context [if ?b then _ else _] => destruct b end; [cbn; discriminate|].
+      cbn [fst snd]. unfold upd_inst, modify. cbv beta iota. cbn [fst snd]. intros _.
+      split; [reflexivity|]. split; [reflexivity|].
+      rewrite get_inst_with_heap. cbn [heap cn with_committed with_log par].
+      rewrite nth_set_nth_same by exact Hin. split; [unfold dirty; cbn; apply existsb_no_queue|reflexivity].
+    + cbn [tobs with_log]. destruct (tobs s) eqn:Et; [cbn; discriminate|].
+      match goal with |- context [if ?b then _ else _] => destruct b end; [cbn; discriminate|].
+      cbn [fst snd]. unfold upd_inst, modify. cbv beta iota. cbn [fst snd]. intros _.
+      split; [reflexivity|]. split; [reflexivity|].
+      rewrite get_inst_with_heap. cbn [heap cn with_pending with_log txn].
+      rewrite nth_set_nth_same by exact Hin. split; [unfold dirty; cbn; apply existsb_no_queue|reflexivity].
+Qed.
+
+(* ------------------------------------------------------------------ a statement the UNIQUE column refuses *)
+(* the primitive: refused on the transaction's connection, it leaves the transaction open on exactly the view it had *)
+Lemma refused_write_proof :
+  forall A (q : stmt) (rf : table -> bool) (f : table -> A * table) (s : st),
+    fst (stmt_write Txn q rf f s) = Raise EDuplicate ->
+    tobs s = false /\ rf (view s Txn) = true /\
+    snd (stmt_write Txn q rf f s) = with_pending (with_log s (q :: log s)) (Some (view s Txn)).
+Proof.
+  intros A q rf f s. unfold stmt_write. destruct (tobs s); [cbn; discriminate|].
+  destruct (rf (view s Txn)); [cbn; auto|]. destruct (f (view s Txn)). cbn. discriminate.
+Qed.
+
+(* an assignment (eager class) or a syncUpdate through a transaction-side instance that the database refuses *)
+Lemma refused_update_proof :
+  forall (cfg : config) (ops : list op) (h x : nat) (o : op),
+    let s := run cfg init ops in
+    nth h (slots s) None = Some (Txn, x) ->
+    (exists c v, o = OSet h c v) \/ o = OSyncUpdate h ->
+    fst (step cfg s o) = Raise EDuplicate ->
+    let s' := snd (step cfg s o) in
+    tobs s' = false /\ committed s' = committed s /\ pending s' = Some (view s Txn) /\ txn s' = txn s /\ par s' = par s /\
+    slots s' = slots s /\ deleted s' = deleted s.
+Proof.
+  intros cfg ops h x o s Hh Ho. unfold step.
+  destruct Ho as [(c & v & ->)| ->]; cbn [run_op]; unfold handle, bind, gets, ret; cbv beta iota; cbn [slots with_log]; rewrite Hh;
+    cbv beta iota; cbn [fst snd].
+  - unfold so_set, bind, gets. cbv beta iota. destruct (lazy cfg); [unfold upd_inst, modify; cbn; discriminate|].
+    unfold db_update.
+    match goal with |- context [stmt_write Txn ?q ?rf ?f (with_log s [])] =>
+      destruct (stmt_write Txn q rf f (with_log s [])) as [[u|e] s1] eqn:Ew;
+      [destruct (i_expired (get_inst (with_log s []) Txn x)); unfold upd_inst, modify; cbn; discriminate|];
+      cbn [fst snd]; intros He; inversion He; subst e;
+      pose proof (refused_write_proof _ q rf f (with_log s [])) as R
+    end.
+    rewrite Ew in R. destruct (R eq_refl) as (R1 & _ & R3). cbn [snd] in R3. subst s1. repeat split; auto.
+  - unfold so_sync_update, bind, gets. cbv beta iota.
+    destruct (dirty (get_inst (with_log s []) Txn x)); [|cbn; discriminate].
+    unfold db_update_cols.
+    match goal with |- context [stmt_write Txn ?q ?rf ?f (with_log s [])] =>
+      destruct (stmt_write Txn q rf f (with_log s [])) as [[u|e] s1] eqn:Ew;
+      [unfold upd_inst, modify; cbn; discriminate|];
+      cbn [fst snd]; intros He; inversion He; subst e;
+      pose proof (refused_write_proof _ q rf f (with_log s [])) as R
+    end.
+    rewrite Ew in R. destruct (R eq_refl) as (R1 & _ & R3). cbn [snd] in R3. subst s1. repeat split; auto.
+Qed.
+
+(* the cache bookkeeping never raises *)
+Definition total {A} (m : M A) : Prop := forall s, exists a s', m s = (Ret a, s').
+Lemma total_ret {A} (a : A) : total (ret a). Proof. intros s. eexists; eexists; reflexivity. Qed.
+Lemma total_gets {A} (f : st -> A) : total (gets f). Proof. intros s. eexists; eexists; reflexivity. Qed.
+Lemma total_modify f : total (modify f). Proof. intros s. eexists; eexists; reflexivity. Qed.
+Lemma total_bind {A B} (m : M A) (f : A -> M B) : total m -> (forall a, total (f a)) -> total (bind m f).
+Proof. intros Hm Hf s. unfold bind. destruct (Hm s) as (a & s1 & E). rewrite E. apply Hf. Qed.
+Ltac total_tac :=
+  repeat first [ apply total_ret | apply total_gets | apply total_modify | (apply total_bind; [|intro])
+               | match goal with
+                 | |- total (if ?b then _ else _) => destruct b
+                 | |- total (match ?x with _ => _ end) => destruct x
+                 | |- total (let _ := _ in _) => cbv zeta
+                 end ].
+Lemma total_cull cfg sd roots : total (cull cfg sd roots).
+Proof. unfold cull, set_cch. total_tac. Qed.
+Lemma total_cache_created cfg sd id o : total (cache_created cfg sd id o).
+Proof. unfold cache_created, ensure_factory, cull_tick, set_cch. total_tac; apply total_cull. Qed.
+
+Lemma so_create_raise cfg a b s e s1 :
+  so_create cfg Txn a b s = (Raise e, s1) -> e = EDuplicate ->
+  tobs s = false /\ s1 = with_pending (with_log s (SInsert Txn :: log s)) (Some (view s Txn)).
+Proof.
+  unfold so_create. unfold bind at 1. unfold db_insert.
+  match goal with |- context [stmt_write Txn ?q ?rf ?f s] =>
+    destruct (stmt_write Txn q rf f s) as [[id|e0] s2] eqn:Ew; [|pose proof (refused_write_proof _ q rf f s) as R] end.
+  - (* inserted: nothing after it raises DuplicateEntryError *)
+    unfold bind at 1. unfold new_inst at 1. cbv beta iota. unfold bind at 1.
+    match goal with |- context [cache_created cfg Txn id ?o ?x] => destruct (total_cache_created cfg Txn id o x) as (u & s3 & Ec) end.
+    rewrite Ec. unfold bind at 1. unfold db_select_one, bind, stmt_read.
+    destruct (dead s3 Txn); [intros E1 E2; inversion E1; congruence|]. unfold ret at 1. cbv beta iota.
+    destruct (tbl_lookup (view s3 Txn) id); unfold select_init, upd_inst, modify, ret, raise; cbv beta iota; intros E1 E2; inversion E1; congruence.
+  - intros E1 E2. inversion E1; subst. rewrite Ew in R. destruct (R eq_refl) as (R1 & _ & R3). cbn [snd] in R3. auto.
+Qed.
+
+(* a create through the transaction that the database refuses *)
+Lemma refused_create_proof :
+  forall (cfg : config) (ops : list op) (via : bool) (a b : val),
+    let s := run cfg init ops in
+    fst (step cfg s (OCreate Txn via a b)) = Raise EDuplicate ->
+    let s' := snd (step cfg s (OCreate Txn via a b)) in
+    tobs s' = false /\ committed s' = committed s /\ pending s' = Some (view s Txn) /\ txn s' = txn s /\ par s' = par s /\
+    slots s' = slots s ++ [None] /\ deleted s' = deleted s.
+Proof.
+  intros cfg ops via a b s. unfold step. cbn [run_op]. unfold hold_or_none.
+  set (s0 := with_log s []).
+  assert (K : forall e s1, (wrapper_access cfg Txn via false ;;; so_create cfg Txn a b) s0 = (Raise e, s1) -> e = EDuplicate ->
+              tobs s = false /\ s1 = with_pending (with_log s0 (SInsert Txn :: log s0)) (Some (view s Txn))).
+  { intros e s1. unfold bind at 1. unfold wrapper_access. destruct via.
+    - unfold bind, gets. cbv beta iota. cbn [dead]. change (tobs s0) with (tobs s). destruct (tobs s) eqn:Et.
+      + unfold raise. intros E1 E2. inversion E1. congruence.
+      + cbn [andb]. unfold ret at 1. cbv beta iota. intros E1 E2. destruct (so_create_raise cfg a b s0 e s1 E1 E2) as [_ R]. auto.
+    - unfold ret at 1. cbv beta iota. intros E1 E2. destruct (so_create_raise cfg a b s0 e s1 E1 E2) as [R0 R]. auto. }
+  destruct ((wrapper_access cfg Txn via false ;;; so_create cfg Txn a b) s0) as [[o|e] s1] eqn:Em.
+  - unfold hold, bind, gets, push_slot, modify, ret. cbn. discriminate.
+  - cbn [fst snd]. intros He. inversion He; subst e. destruct (K EDuplicate s1 eq_refl eq_refl) as [Kt ->].
+    cbn. repeat split; auto.
+Qed.
